@@ -80,10 +80,16 @@ func (l *r2pLoops) list(in []ast.Stmt) []ast.Stmt {
 func (l *r2pLoops) clauses(b *ast.BlockStmt) *ast.BlockStmt {
 	n := *b
 	n.List = make([]ast.Stmt, len(b.List))
-	for i, c := range b.List {
-		cc := c.(*ast.CaseClause)
+	// from the last clause to the first, so that `fallthrough` can be replaced by the (copied) body of the next clause
+	for i := len(b.List) - 1; i >= 0; i-- {
+		cc := b.List[i].(*ast.CaseClause)
 		nc := *cc
 		nc.Body = l.list(cc.Body)
+		if k := len(nc.Body); k > 0 && i+1 < len(b.List) {
+			if br, ok := nc.Body[k-1].(*ast.BranchStmt); ok && br.Tok == token.FALLTHROUGH {
+				nc.Body = append(append([]ast.Stmt(nil), nc.Body[:k-1]...), n.List[i+1].(*ast.CaseClause).Body...)
+			}
+		}
 		l.note(cc, &nc)
 		n.List[i] = &nc
 	}
@@ -196,6 +202,7 @@ const (
 type r2pState struct {
 	facts   map[string]int       // access path -> r2pEmpty / r2pNonEmpty
 	konst   map[types.Object]int // bool / nil-able local: 1 = true / non-nil, 2 = false / nil
+	konstF  map[string]int       // the same for a field of a local struct value ("<object>.<field>")
 	alias   map[types.Object]string
 	must    map[ast.Stmt]bool
 	entered map[ast.Stmt]bool
@@ -205,6 +212,8 @@ type r2pState struct {
 	tmpl map[types.Object]r2pTmpl
 	ctrl map[string]bool        // access paths that took part in a branch decision
 	kind map[string]*travStruct // access paths (interface-typed children) whose node kind was decided on this path
+	// guards: calls of string predicates of the module decided on this path (R-print-bare-guard)
+	guards []r2pGuardRec
 	// R-predicate-all-paths
 	insp    map[string]bool
 	sawAbs  string
@@ -215,8 +224,15 @@ type r2pState struct {
 	elems map[types.Object][]r2pElem
 }
 
+type r2pGuardRec struct {
+	fn    *types.Func
+	paths map[string]bool // what the argument is made of
+	val   bool
+	line  int
+}
+
 func r2pNewState() *r2pState {
-	return &r2pState{facts: map[string]int{}, konst: map[types.Object]int{}, alias: map[types.Object]string{},
+	return &r2pState{facts: map[string]int{}, konst: map[types.Object]int{}, konstF: map[string]int{}, alias: map[types.Object]string{},
 		must: map[ast.Stmt]bool{}, entered: map[ast.Stmt]bool{},
 		tmpl: map[types.Object]r2pTmpl{}, ctrl: map[string]bool{}, kind: map[string]*travStruct{},
 		insp: map[string]bool{}, callVar: map[types.Object]*ast.CallExpr{}, acc: map[types.Object]map[string]bool{},
@@ -232,9 +248,9 @@ func r2pCopyMap[K comparable, V any](m map[K]V) map[K]V {
 }
 
 func r2pClone(s *r2pState) *r2pState {
-	return &r2pState{facts: r2pCopyMap(s.facts), konst: r2pCopyMap(s.konst), alias: r2pCopyMap(s.alias),
+	return &r2pState{facts: r2pCopyMap(s.facts), konst: r2pCopyMap(s.konst), konstF: r2pCopyMap(s.konstF), alias: r2pCopyMap(s.alias),
 		must: r2pCopyMap(s.must), entered: r2pCopyMap(s.entered), trace: append([]string(nil), s.trace...),
-		tmpl: r2pCopyMap(s.tmpl), ctrl: r2pCopyMap(s.ctrl), kind: r2pCopyMap(s.kind),
+		tmpl: r2pCopyMap(s.tmpl), ctrl: r2pCopyMap(s.ctrl), kind: r2pCopyMap(s.kind), guards: append([]r2pGuardRec(nil), s.guards...),
 		insp: r2pCopyMap(s.insp), sawAbs: s.sawAbs, callVar: r2pCopyMap(s.callVar), acc: r2pCopyMap(s.acc),
 		atoms: r2pCopyMap(s.atoms), elems: r2pCopyMap(s.elems)}
 }
@@ -584,7 +600,20 @@ func (e *r2pEnv) applyCond(st *r2pState, atom ast.Expr, taken bool) bool {
 
 // konstOf: truth value of an atom over a local with a known constant.
 func (e *r2pEnv) konstOf(st *r2pState, atom ast.Expr) (bool, bool) {
+	// field of a local struct value: `state.warned`, `state.span != nil`
+	fieldConst := func(x ast.Expr) int {
+		if k, ok := e.fieldKey(x); ok {
+			return st.konstF[k]
+		}
+		return 0
+	}
 	switch x := ast.Unparen(atom).(type) {
+	case *ast.SelectorExpr:
+		if b, ok := types.Unalias(e.info.TypeOf(x)).Underlying().(*types.Basic); ok && b.Kind() == types.Bool {
+			if k := fieldConst(x); k != 0 {
+				return k == 1, true
+			}
+		}
 	case *ast.Ident:
 		if o := e.info.Uses[x]; o != nil {
 			if b, ok := types.Unalias(o.Type()).Underlying().(*types.Basic); ok && b.Kind() == types.Bool {
@@ -603,6 +632,13 @@ func (e *r2pEnv) konstOf(st *r2pState, atom ast.Expr) (bool, bool) {
 		}
 		if !r2pIsNil(e.info, b) {
 			break
+		}
+		if k := fieldConst(ast.Unparen(a)); k != 0 {
+			isNil := k == 2
+			if x.Op == token.EQL {
+				return isNil, true
+			}
+			return !isNil, true
 		}
 		if id, ok := ast.Unparen(a).(*ast.Ident); ok {
 			if o := e.info.Uses[id]; o != nil {
@@ -627,8 +663,33 @@ func (e *r2pEnv) noteAssign(st *r2pState, o types.Object, rhs ast.Expr) {
 	delete(st.konst, o)
 	delete(st.alias, o)
 	delete(st.callVar, o)
-	if _, isRoot := e.roots[o]; isRoot {
-		// a parameter that is overwritten keeps standing for the input only when rhs is derived from it
+	e.clearFields(st, o)
+	if stt, ok := types.Unalias(o.Type()).Underlying().(*types.Struct); ok && !e.addrTaken(o) {
+		var lit *ast.CompositeLit
+		if rhs != nil {
+			lit, _ = ast.Unparen(rhs).(*ast.CompositeLit)
+		}
+		if rhs == nil || lit != nil {
+			set := map[string]ast.Expr{}
+			keyed := true
+			if lit != nil {
+				for _, el := range lit.Elts {
+					if kv, ok := el.(*ast.KeyValueExpr); ok {
+						if id, ok := kv.Key.(*ast.Ident); ok {
+							set[id.Name] = kv.Value
+						}
+					} else {
+						keyed = false
+					}
+				}
+			}
+			if keyed {
+				for i := 0; i < stt.NumFields(); i++ {
+					f := stt.Field(i)
+					e.noteFieldStoreKey(st, r2pObjKey(o)+"."+f.Name(), f.Type(), set[f.Name()], set[f.Name()] == nil)
+				}
+			}
+		}
 	}
 	if rhs == nil {
 		switch t := types.Unalias(o.Type()).Underlying().(type) {
@@ -769,10 +830,54 @@ type r2pClauseFilter struct {
 	host   ast.Stmt        // original switch statement
 	clause *ast.CaseClause // original clause
 	skip   map[ast.Node]bool
+	// perSwitch: for every dispatch over the same subject (original switch statement) the clauses that name the
+	// unit's kind; an empty set = the kind reaches the default clause (or no clause) of that switch
+	perSwitch map[ast.Stmt]map[*ast.CaseClause]bool
+}
+
+// allowNone: may the switch be passed without entering any clause (no default, no clause matches)?
+func (f *r2pClauseFilter) allowNone(sw ast.Stmt) bool {
+	if f == nil {
+		return true
+	}
+	var osw ast.Node = sw
+	if o := f.loops.orig[sw]; o != nil {
+		osw = o
+	}
+	if set, ok := f.perSwitch[osw.(ast.Stmt)]; ok {
+		return len(set) == 0
+	}
+	if f.clause != nil && osw == ast.Node(f.host) {
+		return false
+	}
+	return true
 }
 
 func (f *r2pClauseFilter) allow(sw ast.Stmt, cc *ast.CaseClause) bool {
-	if f == nil || f.clause == nil {
+	if f == nil {
+		return true
+	}
+	if f.perSwitch != nil {
+		var osw ast.Node = sw
+		if o := f.loops.orig[sw]; o != nil {
+			osw = o
+		}
+		var occ ast.Node = cc
+		if o := f.loops.orig[cc]; o != nil {
+			occ = o
+		}
+		if f.skip[occ] {
+			return false
+		}
+		if set, ok := f.perSwitch[osw.(ast.Stmt)]; ok {
+			if len(set) == 0 {
+				return cc.List == nil // only the default clause
+			}
+			return set[occ.(*ast.CaseClause)]
+		}
+		return true
+	}
+	if f.clause == nil {
 		return true
 	}
 	osw := f.loops.orig[sw]
@@ -804,4 +909,107 @@ func r2pClauseOf(sw *ast.SwitchStmt, vals []ast.Expr) *ast.CaseClause {
 		}
 	}
 	return nil
+}
+
+func r2pObjKey(o types.Object) string { return fmt.Sprintf("%s@%d", o.Name(), o.Pos()) }
+
+// fieldKey: `x.f` with x a local variable of struct type (by value) whose address is never taken.
+func (e *r2pEnv) fieldKey(x ast.Expr) (string, bool) {
+	se, ok := ast.Unparen(x).(*ast.SelectorExpr)
+	if !ok {
+		return "", false
+	}
+	id, ok := ast.Unparen(se.X).(*ast.Ident)
+	if !ok {
+		return "", false
+	}
+	o, ok := e.info.Uses[id].(*types.Var)
+	if !ok || o.IsField() || o.Parent() == nil || (o.Pkg() != nil && o.Parent() == o.Pkg().Scope()) {
+		return "", false
+	}
+	if _, isRoot := e.roots[o]; isRoot {
+		return "", false
+	}
+	if _, ok := types.Unalias(o.Type()).Underlying().(*types.Struct); !ok || e.addrTaken(o) {
+		return "", false
+	}
+	return r2pObjKey(o) + "." + se.Sel.Name, true
+}
+
+func (e *r2pEnv) addrTaken(o types.Object) bool {
+	taken := false
+	ast.Inspect(e.fd.Body, func(n ast.Node) bool {
+		if u, ok := n.(*ast.UnaryExpr); ok && u.Op == token.AND {
+			if id, ok := ast.Unparen(u.X).(*ast.Ident); ok && e.info.Uses[id] == o {
+				taken = true
+			}
+		}
+		// a method with pointer receiver called on the value takes its address as well
+		if se, ok := n.(*ast.SelectorExpr); ok {
+			if sel := e.info.Selections[se]; sel != nil && sel.Kind() == types.MethodVal {
+				if id, ok := ast.Unparen(se.X).(*ast.Ident); ok && e.info.Uses[id] == o {
+					if _, ptr := sel.Obj().Type().(*types.Signature).Recv().Type().(*types.Pointer); ptr {
+						taken = true
+					}
+				}
+			}
+		}
+		return !taken
+	})
+	return taken
+}
+
+func (e *r2pEnv) clearFields(st *r2pState, o types.Object) {
+	pre := r2pObjKey(o) + "."
+	for k := range st.konstF {
+		if strings.HasPrefix(k, pre) {
+			delete(st.konstF, k)
+		}
+	}
+}
+
+// noteFieldStoreKey: constant of a field after `x.f = rhs` (zero: the field takes its zero value).
+func (e *r2pEnv) noteFieldStoreKey(st *r2pState, key string, t types.Type, rhs ast.Expr, zero bool) {
+	delete(st.konstF, key)
+	if zero {
+		switch u := types.Unalias(t).Underlying().(type) {
+		case *types.Basic:
+			if u.Kind() == types.Bool {
+				st.konstF[key] = 2
+			}
+		case *types.Pointer, *types.Interface, *types.Slice, *types.Map:
+			st.konstF[key] = 2
+		}
+		return
+	}
+	switch x := ast.Unparen(rhs).(type) {
+	case *ast.Ident:
+		switch {
+		case r2pIsNil(e.info, x):
+			st.konstF[key] = 2
+		case x.Name == "true" && e.info.Uses[x] == types.Universe.Lookup("true"):
+			st.konstF[key] = 1
+		case x.Name == "false" && e.info.Uses[x] == types.Universe.Lookup("false"):
+			st.konstF[key] = 2
+		}
+	case *ast.UnaryExpr:
+		if x.Op == token.AND {
+			st.konstF[key] = 1
+		}
+	}
+}
+
+// noteFieldStores: the `x.f = rhs` parts of an assignment statement (called by every rule's OnStmt).
+func (e *r2pEnv) noteFieldStores(st *r2pState, as *ast.AssignStmt) {
+	for i, l := range as.Lhs {
+		k, ok := e.fieldKey(l)
+		if !ok {
+			continue
+		}
+		if as.Tok != token.ASSIGN || len(as.Lhs) != len(as.Rhs) {
+			delete(st.konstF, k)
+			continue
+		}
+		e.noteFieldStoreKey(st, k, e.info.TypeOf(l), as.Rhs[i], false)
+	}
 }
